@@ -5,6 +5,49 @@ use crate::drive::{Caught, DArg, DSol, DSubst, SolverCfg};
 use crate::report::Violation;
 use std::collections::BTreeMap;
 
+/// Shape of a goal given as text (quantifier prefix stripped): hyp-?(atom|conj|not|eq), as in
+/// `ast::goal_shape` — part of the site so that a defect of one shape cannot absorb another.
+pub fn text_shape(goal: &str) -> String {
+    let mut g = goal.trim();
+    let mut hyp = false;
+    loop {
+        let is_q = g.starts_with("exists<") || g.starts_with("forall<");
+        let is_if = g.starts_with("if (") || g.starts_with("if(");
+        if !(is_q || is_if) {
+            break;
+        }
+        hyp |= is_if;
+        match g.find('{') {
+            Some(i) => g = g[i + 1..].trim(),
+            None => break,
+        }
+    }
+    let body = g.trim_end_matches(|c: char| c == '}' || c.is_whitespace());
+    let mut depth = 0i32;
+    let mut conj = false;
+    let mut prev = ' ';
+    for ch in body.chars() {
+        match ch {
+            '<' | '(' | '[' | '{' => depth += 1,
+            '>' if prev == '-' => {}
+            '>' | ')' | ']' | '}' => depth -= 1,
+            ',' | ';' if depth == 0 => conj = true,
+            _ => {}
+        }
+        prev = ch;
+    }
+    let shape = if conj {
+        "conj"
+    } else if body.starts_with("not") {
+        "not"
+    } else if body.contains(" = ") && !body.contains(": ") {
+        "eq"
+    } else {
+        "atom"
+    };
+    format!("{}{}", if hyp { "hyp-" } else { "" }, shape)
+}
+
 /// Is `inst` an instance of pattern `pat` (pattern's bound variables are the unknowns)?
 pub fn subst_instance(pat: &DSubst, inst: &DSubst) -> bool {
     if pat.args.len() != inst.args.len() {
@@ -125,7 +168,7 @@ pub fn cross_check(
                 format!("structural/{}", class)
             }
         } else {
-            class.to_string()
+            format!("{}/{}", class, text_shape(goal_text))
         };
         rep.violation(Violation {
             property: "C04".into(),
